@@ -451,3 +451,52 @@ Proof.
   - exists ix. split; [exact Ed|]. unfold dupdate. cbn [dlookup]. now rewrite beq_refl.
   - intros m Hm. now apply dlookup_dupdate_other.
 Qed.
+
+(* ---------- the same guarantees over the command-line options (Model/ServerCLI.v) ---------- *)
+From DS Require Import Model.ServerCLI.
+
+Lemma cli_auth_nonempty o : o_auth_flag o <> [] \/ o_auth_env o <> [] -> cli_auth o <> [].
+Proof.
+  unfold cli_auth. destruct (o_auth_flag o) eqn:E; cbn [nonempty]; [|intros _; discriminate].
+  intros [Hf|He]; [congruence|exact He].
+Qed.
+
+(* an expected value given by the flag OR only through the environment is enforced by both servers *)
+Lemma cli_auth_gate H zcomp zdecomp index_t idx_decode idx_encode o r :
+  o_auth_flag o <> [] \/ o_auth_env o <> [] -> r_auth r <> cli_auth o ->
+  (forall files, cli_chunk_handle H zcomp zdecomp o files r = (resp 401 [], cli_store o files)) /\
+  (forall d, cli_index_handle index_t idx_decode idx_encode o d r = (resp 401 [], d)).
+Proof.
+  intros Hne Hr. pose proof (cli_auth_nonempty o Hne) as Ha.
+  split; intros; [apply chunk_auth_gate; assumption|apply index_auth_gate; assumption].
+Qed.
+
+(* the flag wins over the environment; the environment counts when the flag is absent *)
+Lemma cli_auth_flag o : o_auth_flag o <> [] -> cli_auth o = o_auth_flag o.
+Proof. unfold cli_auth. destruct (o_auth_flag o); [congruence|reflexivity]. Qed.
+Lemma cli_auth_env o : o_auth_flag o = [] -> cli_auth o = o_auth_env o.
+Proof. unfold cli_auth. now intros ->. Qed.
+
+Lemma cli_readonly H zcomp zdecomp index_t idx_decode idx_encode o r :
+  o_writable o = false ->
+  (forall files, snd (cli_chunk_handle H zcomp zdecomp o files r) = cli_store o files) /\
+  (forall d, snd (cli_index_handle index_t idx_decode idx_encode o d r) = d).
+Proof. intros Hw. split; intros; [now apply chunk_readonly|now apply index_readonly]. Qed.
+
+(* --skip-verify-write=false: whatever --skip-verify-read says, a stored chunk hashes to its id *)
+Lemma cli_put_verified H zcomp zdecomp o files r rs s' :
+  o_skip_verify_write o = false ->
+  cli_chunk_handle H zcomp zdecomp o files r = (rs, s') -> s' <> cli_store o files ->
+  exists ib d,
+    id_from_path (negb (o_uncompressed o)) (r_path r) = Some ib /\
+    from_storage zdecomp (opt_converters (o_uncompressed o)) (r_body r) = Some d /\
+    H d = id_of_bytes ib /\
+    lookup (id_of_bytes ib) (ls_files s') = Some (zcomp d) /\
+    forall j, j <> id_of_bytes ib -> lookup j (ls_files s') = lookup j files.
+Proof.
+  intros Hv E Hne. unfold cli_chunk_handle in E.
+  destruct (put_verified H zcomp zdecomp (cli_chunk_cfg o) (cli_store o files) r rs s' Hv E Hne) as [ib [d [E1 [E2 [E3 [E4 E5]]]]]].
+  exists ib, d. unfold handler_conv, cli_chunk_cfg, cli_store in *.
+  cbn [c_compressed ls_files ls_uncompressed opt_converters to_storage layer_to] in *.
+  rewrite negb_involutive in E2. repeat split; assumption.
+Qed.
